@@ -13,7 +13,8 @@ Variable entries : xml -> mentries.
 Variable kids : xml -> list kid.
 Variable mime : bytes -> mtype.
 Variable rdf0 : bytes.
-Variable mask : xml -> xml.
+Variable proj : Type.
+Variable mask : xml -> proj.
 Hypothesis par_ser : forall x, par (ser x) = x.
 Notation container := (container bytes).
 Notation document := (document xml bytes).
@@ -24,8 +25,8 @@ Notation dB := (dB xml bytes kid).
 Notation dX := (dX xml bytes kid par).
 Notation WFd := (WFd xml bytes kid).
 Notation d_tree := (d_tree xml bytes kid par FIXED).
-Notation view := (view xml bytes kid par mask).
-Notation file_view := (file_view xml bytes kid par mask).
+Notation view := (view xml bytes kid par proj mask).
+Notation file_view := (file_view xml bytes kid par proj mask).
 Notation d_save := (d_save xml bytes kid ser par pretty stamp entries kids mime rdf0 FIXED).
 Notation ser_loop := (ser_loop xml bytes kid ser par pretty FIXED).
 Notation check_rdf := (check_rdf xml bytes kid par entries rdf0 FIXED).
@@ -62,8 +63,8 @@ Proof.
   intros fs d W. unfold Package.check_rdf.
   pose proof (d_tree_sem xml bytes kid par fs MANIFEST d W is_xml_MANIFEST) as [_ [_ [_ [W1 _]]]].
   destruct (d_tree fs MANIFEST d) as [d1 [xm|]]; cbn [fst] in *; [|exact W1].
-  destruct (match m_get RDF (entries xm) with Some m => negb (m =? EMPTYMT) | None => false end);
-    destruct (memz RDF (c_listing bytes kid fs (cont _ _ d1))); cbn [fst]; try exact W1.
+  destruct (rdf_listed FIXED (entries xm));
+    destruct (memz RDF (c_listing bytes kid FIXED fs (cont _ _ d1))); cbn [fst]; try exact W1.
   - destruct (c_set_part_sem bytes kid fs RDF rdf0 (cont _ _ d1) (wfd_c _ _ _ _ _ W1)) as [S1 [S2 _]].
     apply with_cont_wf; [exact W1|exact S2|]. intros m Hm Hb. rewrite S1. destruct (m =? RDF); [discriminate|exact Hb].
   - destruct (c_del_part_sem bytes kid fs RDF (cont _ _ d1) (wfd_c _ _ _ _ _ W1)) as [S1 [S2 _]].
